@@ -322,6 +322,7 @@ class QueryScheduler:
         '_next_scheduled_for_alias',
         '_query_heap',
         '_next_run',
+        '_earliest_next_run_millis',
         '_clock_resolution_millis',
         '_question_type',
     )
@@ -349,6 +350,7 @@ class QueryScheduler:
         self._next_scheduled_for_alias: Dict[str, _ScheduledPTRQuery] = {}
         self._query_heap: list[_ScheduledPTRQuery] = []
         self._next_run: Optional[asyncio.TimerHandle] = None
+        self._earliest_next_run_millis: Optional[float] = None
         self._clock_resolution_millis = time.get_clock_info('monotonic').resolution * 1000
         self._question_type = question_type
 
@@ -371,6 +373,7 @@ class QueryScheduler:
         if self._next_run is not None:
             self._next_run.cancel()
             self._next_run = None
+        self._earliest_next_run_millis = None
         self._next_scheduled_for_alias.clear()
         self._query_heap.clear()
 
@@ -388,6 +391,15 @@ class QueryScheduler:
         """Schedule a query for a pointer."""
         self._next_scheduled_for_alias[scheduled_query.alias] = scheduled_query
         heappush(self._query_heap, scheduled_query)
+        earliest_millis = self._earliest_next_run_millis
+        if earliest_millis is None or self._next_run is None or self._loop is None:
+            return
+        # If the new query is due before the next scheduled run, the run has
+        # to be moved forward or the query would be sent late or never
+        when = millis_to_seconds(max(scheduled_query.when_millis, earliest_millis))
+        if when < self._next_run.when():
+            self._next_run.cancel()
+            self._next_run = self._loop.call_at(when, self._process_ready_types)
 
     def cancel_ptr_refresh(self, pointer: DNSPointer) -> None:
         """Cancel a query for a pointer."""
@@ -448,6 +460,7 @@ class QueryScheduler:
         # switch to a strategy of sending queries only when we
         # need to refresh records that are about to expire
         if self._startup_queries_sent >= STARTUP_QUERIES:
+            self._earliest_next_run_millis = now_millis + self._min_time_between_queries_millis
             self._next_run = self._loop.call_at(
                 millis_to_seconds(now_millis + self._min_time_between_queries_millis),
                 self._process_ready_types,
@@ -474,6 +487,7 @@ class QueryScheduler:
 
         ready_types: Set[str] = set()
         next_scheduled: Optional[_ScheduledPTRQuery] = None
+        self._earliest_next_run_millis = None
         end_time_millis = now_millis + self._clock_resolution_millis
         schedule_rescue: List[_ScheduledPTRQuery] = []
 
@@ -502,6 +516,13 @@ class QueryScheduler:
 
         next_time_millis = now_millis + self._min_time_between_queries_millis
 
+        # A rescue query may be due before the query the loop above stopped at
+        while self._query_heap and self._query_heap[0].cancelled:
+            heappop(self._query_heap)
+        if self._query_heap:
+            next_scheduled = self._query_heap[0]
+
+        self._earliest_next_run_millis = next_time_millis
         if next_scheduled is not None and next_scheduled.when_millis > next_time_millis:
             next_when_millis = next_scheduled.when_millis
         else:
